@@ -1,20 +1,24 @@
 // d_file.cpp — C18: filename <-> URI string conversions, destination buffers sized exactly as documented and ending at a guard page.
 #include "vh.h"
 static Text operator+(Text a,const Text&b){ a.insert(a.end(),b.begin(),b.end()); return a; }
+// what the destination holds BEFORE the call must not matter: poison, zeros, the start of a percent-escape, separators (a caller reuses buffers)
+static unsigned long g_prefill=0;
+template<class Ch> static void prefill(Ch*d,size_t cap){ static const char* pat[]={"\xEE","","%4","\\","%","a%41"}; unsigned long m=(g_prefill++)%7; if(m==6) m=0;
+  const char*p=pat[m]; size_t L=strlen(p); for(size_t i=0;i<cap;++i) d[i]= L? (Ch)(unsigned char)p[i%L] : (Ch)0; }
 template<class A> static void file_event(Guarded&a1,Guarded&a2,Guarded&a3,const Text&name,int unix_){
   typedef typename A::Ch Ch; size_t n=name.size(); size_t cap=(unix_?7:8)+3*n+1;
-  Ch*src=a1.put<Ch>(name,true); Ch*dst=(Ch*)a2.tail(cap*sizeof(Ch)); for(size_t i=0;i<cap;++i) dst[i]=(Ch)0xEE; int rc1=-9,rc2=-9;
+  Ch*src=a1.put<Ch>(name,true); Ch*dst=(Ch*)a2.tail(cap*sizeof(Ch)); prefill(dst,cap); int rc1=-9,rc2=-9;
   g.set_case(J().str("driver","file").raw("name",jtext(name)).num("unix",unix_).num("w",A::W).done());
   int f1=guarded_call([&]{ rc1= unix_? A::UnixFilenameToUriString(src,dst) : A::WindowsFilenameToUriString(src,dst); });
   Text uri; bool term1=false; if(!f1&&rc1==URI_SUCCESS){ size_t k=0; while(k<cap&&dst[k]) ++k; term1=(k<cap); uri=to_text<Ch>(dst,dst+k); }
   // the produced string through the real parser
   int prc=-1; if(term1){ typename A::Uri u; const Ch*e; prc=A::ParseSingleUri(&u,dst,&e); A::FreeUriMembers(&u); }
   // back: destination of exactly len(uri)+1 characters
-  Text back; int f2=0; bool term2=false; if(term1){ Ch*us=a1.put<Ch>(uri,true); size_t cap2=uri.size()+1; Ch*d2=(Ch*)a3.tail(cap2*sizeof(Ch)); for(size_t i=0;i<cap2;++i) d2[i]=(Ch)0xEE;
+  Text back; int f2=0; bool term2=false; if(term1){ Ch*us=a1.put<Ch>(uri,true); size_t cap2=uri.size()+1; Ch*d2=(Ch*)a3.tail(cap2*sizeof(Ch)); prefill(d2,cap2);
     f2=guarded_call([&]{ rc2= unix_? A::UriStringToUnixFilename(us,d2) : A::UriStringToWindowsFilename(us,d2); }); if(!f2&&rc2==URI_SUCCESS){ size_t k=0; while(k<cap2&&d2[k]) ++k; term2=(k<cap2); back=to_text<Ch>(d2,d2+k); } }
   g.event(J().str("e","FileRound").num("w",A::W).raw("name",jtext(name)).boo("unix",unix_).num("rc1",rc1).num("f1",f1).boo("term1",term1).raw("uri",jtext(uri)).num("prc",prc).num("rc2",rc2).num("f2",f2).boo("term2",term2).raw("back",jtext(back)).str("s",show(name)).done()); }
 template<class A> static void tofile_event(Guarded&a1,Guarded&a3,const Text&uri,int unix_){
-  typedef typename A::Ch Ch; Ch*us=a1.put<Ch>(uri,true); size_t cap2=uri.size()+1; Ch*d2=(Ch*)a3.tail(cap2*sizeof(Ch)); for(size_t i=0;i<cap2;++i) d2[i]=(Ch)0xEE; int rc2=-9;
+  typedef typename A::Ch Ch; Ch*us=a1.put<Ch>(uri,true); size_t cap2=uri.size()+1; Ch*d2=(Ch*)a3.tail(cap2*sizeof(Ch)); prefill(d2,cap2); int rc2=-9;
   g.set_case(J().str("driver","file/to").raw("uri",jtext(uri)).num("unix",unix_).done());
   int f2=guarded_call([&]{ rc2= unix_? A::UriStringToUnixFilename(us,d2) : A::UriStringToWindowsFilename(us,d2); }); Text back; bool term2=false; if(!f2&&rc2==URI_SUCCESS){ size_t k=0; while(k<cap2&&d2[k]) ++k; term2=(k<cap2); back=to_text<Ch>(d2,d2+k); }
   g.event(J().str("e","UriToFile").num("w",A::W).raw("uri",jtext(uri)).boo("unix",unix_).num("rc2",rc2).num("f2",f2).boo("term2",term2).raw("back",jtext(back)).str("s",show(uri)).done()); }
